@@ -339,6 +339,23 @@ def check_basic(case):
             okr, resr = _call(out, '%s %s' % (name, lab), f, dict(op='join', variant=name[:24], **sig))
             if okr:
                 check_join(out, '%s %s' % (name, lab), resr, lrows, rrows, kf, kf, lnames, None, dict(op='join', variant=name[:24], **sig))
+        # a right table that holds NOTHING but its key columns, the key names listed in another order than it stores them: names, not positions
+        out.sub()
+        yk = dictable({c: list(y[c]) for c in rnames})
+        okr, resr = _call(out, 'x.join(y with key columns only, reversed names) %s' % lab, lambda: x.join(yk, lnames[::-1]), dict(op='join', variant='keys-only', **sig))
+        if okr:
+            wantc = collections.Counter()
+            for i, l in enumerate(lrows):
+                m_ = sum(1 for r in rrows if all(keq(a, b) for a, b in zip(kf(l), kf(r))))
+                if m_:
+                    wantc[i] = m_
+            try:
+                gotc = collections.Counter(row['v'] for row in resr) if (wantc or len(resr)) else collections.Counter()
+                if gotc != wantc:
+                    out.viol('join-wrong-pairs', 'x.join(y with key columns only, %r) %s: left rows matched %s, expected %s (left row -> number of equal right keys)' % (
+                        lnames[::-1], lab, dict(gotc), dict(wantc)), missing=bool(wantc - gotc), extra=bool(gotc - wantc), op='join', variant='keys-only', **sig)
+            except Exception as e:
+                out.viol('join-result-broken', 'x.join(y with key columns only): %s: %s' % (type(e).__name__, e), op='join', variant='keys-only', **sig)
         # a computed key (callable) in FIRST position next to a plain name: every key value must come out under its own key column
         out.sub()
         lc = [lambda k: k] + lnames[1:]
